@@ -6,22 +6,7 @@
 typedef std::back_insert_iterator<std::list<std::list<DGraph::edge_descriptor>>> OutIt;
 typedef boost::property_map<DGraph, boost::edge_weight_t>::type WMap;
 
-int main() {
-    return run_cases([](Toks &t, std::ostream &out) {
-        std::string kind = t.next();
-        if (kind == "B") {      // B s t hops|inf graph : is_bfs_reachable
-            size_t s = t.next_sz(), tg = t.next_sz(); std::string h = t.next();
-            size_t hops = (h == "inf") ? (std::numeric_limits<std::size_t>::max)() : (size_t) std::stoull(h);
-            GCase<DGraph> c; read_graph(t, c);
-            out << "B " << (parmcb::is_bfs_reachable(c.g, s, tg, hops) ? 1 : 0);
-            return;
-        }
-        // S k graph
-        size_t k = t.next_sz();
-        GCase<DGraph> c; read_graph(t, c);
-        typedef parmcb::detail::mcb_sva_signed<DGraph, WMap, OutIt> Exact;
-        WMap wm = boost::get(boost::edge_weight, c.g);
-        parmcb::detail::BaseApproxSpannerAlgorithm<DGraph, WMap, Exact, false> algo(c.g, wm, boost::get(boost::vertex_index, c.g), k);
+template<class Algo> void dump(std::ostream &out, GCase<DGraph> &c, Algo &algo) {
         const DGraph &sp = algo.verif_spanner();
         const auto &tr = algo.verif_edge_spanner_to_g();
         out << "NV " << boost::num_vertices(sp) << " RET";
@@ -35,5 +20,38 @@ int main() {
         out << " SPW";
         for (auto &se : sedges) out << " " << exact_weight(boost::get(boost::edge_weight, sp, se), 0);
         out << " MAPSIZE " << tr.size();
+}
+
+int main() {
+    return run_cases([](Toks &t, std::ostream &out) {
+        std::string kind = t.next();
+        if (kind == "B") {      // B s t hops|inf graph : is_bfs_reachable
+            size_t s = t.next_sz(), tg = t.next_sz(); std::string h = t.next();
+            size_t hops = (h == "inf") ? (std::numeric_limits<std::size_t>::max)() : (size_t) std::stoull(h);
+            GCase<DGraph> c; read_graph(t, c);
+            out << "B " << (parmcb::is_bfs_reachable(c.g, s, tg, hops) ? 1 : 0);
+            return;
+        }
+        if (kind == "S2") {     // S2 k graph : the caller's weight map is an EXTERNAL map; the interior edge_weight property holds decoys
+            size_t k = t.next_sz();
+            GCase<DGraph> c; read_graph(t, c);
+            typedef std::map<DGraph::edge_descriptor, double> Store;
+            typedef boost::associative_property_map<Store> XMap;
+            Store store; double mx = 0;
+            for (size_t i = 0; i < c.edges.size(); i++) { store[c.edges[i]] = (double) c.iw[i]; mx = std::max(mx, (double) c.iw[i]); }
+            for (size_t i = 0; i < c.edges.size(); i++) boost::put(boost::edge_weight, c.g, c.edges[i], mx + 1 - (double) c.iw[i]);   // reversed order
+            XMap xm(store);
+            typedef parmcb::detail::mcb_sva_signed<DGraph, XMap, OutIt> Exact2;
+            parmcb::detail::BaseApproxSpannerAlgorithm<DGraph, XMap, Exact2, false> algo(c.g, xm, boost::get(boost::vertex_index, c.g), k);
+            dump(out, c, algo);
+            return;
+        }
+        // S k graph
+        size_t k = t.next_sz();
+        GCase<DGraph> c; read_graph(t, c);
+        typedef parmcb::detail::mcb_sva_signed<DGraph, WMap, OutIt> Exact;
+        WMap wm = boost::get(boost::edge_weight, c.g);
+        parmcb::detail::BaseApproxSpannerAlgorithm<DGraph, WMap, Exact, false> algo(c.g, wm, boost::get(boost::vertex_index, c.g), k);
+        dump(out, c, algo);
     });
 }
